@@ -124,6 +124,17 @@ CHECKS["C15"] = ("Multipart.tla",
     "Trusted: TLC; the sink-lag measurement in the adapter. Header blocks are outside the buffering bound.",
     "DESIGN.md 5 C15")
 
+CHECKS["C07"] = ("StaticFiles.tla",
+    "TLC exhaustive model check of lexical resolution, confinement, the Files/Pages answer rules and the follow-up of a Pages "
+    "redirect (Confined, ExactFile, Complete, RedirectThenIndex, NoRedirectLoop) for every request path over the segment "
+    "alphabet; every behaviour replayed on Files and Pages, WSGI and ASGI, against a real tree with secrets above and beside "
+    "the root, with an audit hook on open()",
+    "All paths of up to 3 (thorough 4) segments over {'', '.', '..', file, dir, '..name', '%2e%2e', index.html, x.html, x, y, "
+    "sibling and secret names}; directory given absolute, cwd-relative and package-relative. The model is the unique answer the "
+    "statement prescribes (a trailing slash after a regular file may answer 404 or the file).",
+    "Trusted: TLC, servers.py, the audit hook (open / os.open events). POSIX only; no symlinks inside the tree.",
+    "DESIGN.md 5 C07")
+
 NOT_YET = {}
 
 ALL = ["C%02d" % i for i in range(1, 21)]
